@@ -299,6 +299,78 @@ def bump_replaces(ctx):
                     'bumpfee() with the default broadcast=False followed by send(): balance and utxos() count the change of both transactions, also after reopening')
 
 
+@PROP.obligation('C08.store-keeps-spent')
+def store_keeps_spent(ctx):
+    """WalletTransaction.store refreshes an output row that already exists. The stored spent flag may only be RAISED by that refresh: the
+    expression assigned to the row's spent column, evaluated with the row at spent=True and the in-memory output at its constructor
+    default spent=False, must stay True - an Output object carries False until told otherwise, so writing it back revives an output that
+    a later stored transaction has consumed (send() of an already stored transaction, transaction_import of an old object)."""
+    q = W + ':WalletTransaction.store'
+    fn = ctx.repo.func(q)
+    asg = [n for n in ast.walk(fn) if isinstance(n, ast.Assign) and norm(n.targets[0]).endswith('.spent') and isinstance(n.targets[0], ast.Attribute) and isinstance(n.targets[0].value, ast.Name)]
+    if not asg:
+        ctx.saw('store never rewrites the spent flag of an existing output row')
+        return
+    from ..sym import Interp, S, State, term, show
+    for a in asg:
+        row = a.targets[0].value.id
+        R = ('var', row)
+        res = {}
+        for mem in (False, None, True):
+            it = Interp(ctx.repo, W, self_cls=W + ':WalletTransaction')
+            st = State(env={row: S(R), 'spent': mem, 'self': S(('var', 'self'))})
+            st.heap[('attr', R, 'spent')] = True
+            v = it.eval(a.value, st)
+            res[mem] = v if isinstance(v, bool) or v is None else show(term(v))[:60]
+        ctx.saw('existing row spent=True, in-memory flag False / None / True -> %s' % [res[m] for m in (False, None, True)])
+        if res[False] is not True:
+            ctx.violate(q, 'an existing output row with spent=True is rewritten with the in-memory flag (`%s`): spent=False, the constructor default, clears it' % norm(a)[:100], a,
+                        't1 pays change c; t2 (stored) spends c; t1.send() again -> c is unspent once more: balance and utxos() count it a second time')
+        if res[None] is not True:
+            ctx.violate(q, 'an existing output row with spent=True loses the flag when the in-memory flag is unknown (`%s`)' % norm(a)[:100], a)
+
+
+@PROP.obligation('C08.balance-writes', canaries=[
+    mut.replace_expr(W, 'Wallet._balance_update', "[{'id': kb['id'], 'balance': kb['balance']} for kb in key_balance_list]", 'key_balance_list', 'grouping records written into the key rows'),
+])
+def balance_writes(ctx):
+    """Wallet._balance_update writes balances, nothing else: the records handed to session.bulk_update_mappings(DbKey, ...) carry the
+    primary key and `balance` only. Its working records also hold the network and account of the TRANSACTION that pays the key; written
+    into DbKey they move a key that was paid from another account into that account (DbKey.account_id is what new_keys / keys filter on)."""
+    q = W + ':Wallet._balance_update'
+    fn = ctx.repo.func(q)
+    calls = [c for c in ast.walk(fn) if isinstance(c, ast.Call) and isinstance(c.func, ast.Attribute) and c.func.attr == 'bulk_update_mappings']
+    if not calls:
+        ctx.saw('_balance_update does not bulk-update rows')
+        return
+    cols = set(n.targets[0].id for n in ctx.repo.cls('db:DbKey').body if isinstance(n, ast.Assign) and isinstance(n.targets[0], ast.Name))
+    for c in calls:
+        if len(c.args) != 2 or norm(c.args[0]) != 'DbKey':
+            ctx.unsure('%s: bulk update of %s' % (q, norm(c.args[0]) if c.args else '?'))
+            continue
+        rec = c.args[1]
+        keys = None
+        if isinstance(rec, ast.ListComp) and isinstance(rec.elt, ast.Dict) and all(isinstance(k, ast.Constant) for k in rec.elt.keys):
+            keys = [k.value for k in rec.elt.keys]
+        elif isinstance(rec, ast.Name):
+            # a list built elsewhere in the function: the keys of every dict literal appended to / comprehended into it
+            keys = []
+            for n in ast.walk(fn):
+                if isinstance(n, ast.Dict) and all(isinstance(k, ast.Constant) for k in n.keys) and any(isinstance(k, ast.Constant) and k.value == 'balance' for k in n.keys):
+                    keys += [k.value for k in n.keys]
+                if isinstance(n, ast.Call) and norm(n.func) == 'dict' and n.args and isinstance(n.args[0], ast.Call) and norm(n.args[0].func) == 'zip' and isinstance(n.args[0].args[0], ast.List):
+                    keys += [e.value for e in n.args[0].args[0].elts if isinstance(e, ast.Constant)]
+        if keys is None:
+            ctx.unsure('%s: records of the bulk update not recognised: %s' % (q, norm(rec)[:60]))
+            continue
+        written = sorted(set(k for k in keys if k in cols) - {'id'})
+        ctx.saw('bulk update of DbKey writes the columns %s' % written)
+        extra = [k for k in written if k != 'balance']
+        if extra:
+            ctx.violate(q, 'the balance update also writes the DbKey column(s) %s from its grouping records (account / network of the paying transaction)' % extra, c,
+                        "a key of account 1 paid from account 0 moves to account 0: new_key(account_id=1) issues m/.../1'/0/0 again, keys(account_id=1) no longer lists it")
+
+
 @PROP.obligation('C08.balance-reset', canaries=[
     mut.replace_stmt(W, 'Wallet._balance_update', "b['balance'] = 0", 'pass', 'stale totals survive when nothing is unspent'),
 ])
